@@ -111,6 +111,17 @@ func propC12(r *Run) {
 			changes := map[string]*chg{}
 			admins := map[string]bool{}
 			aux0 := map[string]string{}
+			logPos0 := len(w.fs.Log)
+			// records that are already under the default set and get no password change must come
+			// out of the phase byte-identical: a login never rewrites a hash that is not upgradeable
+			settled := map[string]string{}
+			for _, u := range users {
+				if _, c, ok := w.fileOf(cfg.BaseDir, u); ok {
+					if rec, perr := ParseStrict(strings.SplitN(c, "\n", 2)[0]); perr == nil && uint(rec.ParamID) == cfg.Default {
+						settled[u] = c
+					}
+				}
+			}
 			// a user whose record is upgradeable right now gets both a change and logins for sure
 			focus := ""
 			for _, u := range users {
@@ -129,7 +140,7 @@ func propC12(r *Run) {
 			}
 			for _, u := range users {
 				admins[u], aux0[u] = model[u].Admin, model[u].Aux
-				if u == focus || r.Choose("epi-change", 2) == 1 {
+				if (u == focus && r.Choose("epi-focus-change", 4) > 0) || (u != focus && r.Choose("epi-change", 2) == 1) {
 					c := &Call{Kind: "update", Via: "agent", Agent: a.idx, User: u, PW: "epilogue-pw-of-" + u}
 					changes[u] = &chg{c, model[u].PW, c.PW}
 					w.addClient([]*Call{c})
@@ -200,6 +211,23 @@ func propC12(r *Run) {
 					}
 				}
 				model[u].PW = want
+				if changes[u] == nil {
+					// without a password change a record is rewritten at most once (the upgrade)
+					n := 0
+					for _, rec := range w.fs.Log[min(logPos0, len(w.fs.Log)):] {
+						if rec.Kind == "rename" && rec.Err == "" && (rec.Real == cfg.BaseDir+"/"+u+".user" || rec.Real == cfg.BaseDir+"/"+u+".admin") {
+							n++
+						}
+					}
+					if n > 1 {
+						r.Fail("upgrade/unexpected-rewrite", "nobody changed the password of %s, yet its record was rewritten %d times while logins raced (one upgrade is the most a login may cause)", u, n)
+					}
+				}
+				if before, ok := settled[u]; ok && changes[u] == nil {
+					if _, after, _ := w.fileOf(cfg.BaseDir, u); after != before {
+						r.Fail("upgrade/unexpected-rewrite", "the record of %s was under the default set and nobody changed the password, but logins racing with each other rewrote it: %s -> %s", u, simrt.Q(before), simrt.Q(after))
+					}
+				}
 			}
 			r.Count("probe:concurrent-login-and-change-epilogues")
 		}
@@ -288,6 +316,23 @@ func propC12(r *Run) {
 			}
 			before := w.fs.Snapshot("/srv/whawty")
 			mut0 := w.fs.Mutations
+			// in some local-mode logins one write-side file operation of the upgrade fails (full
+			// disk, I/O error): the record then stays exactly as it was - or is the complete new one
+			faulty := mode == "local" && r.Choose("disk-fault-during-upgrade", 8) == 0
+			if faulty {
+				at := w.fs.NOps + r.Choose("upgrade-fault-at", 40)
+				en := []syscall.Errno{syscall.ENOSPC, syscall.EIO, syscall.EMFILE}[r.Choose("upgrade-fault-errno", 3)]
+				fired := false
+				w.fs.Plan = func(seq int, kind, real string) *simfs.Fault {
+					writeSide := kind == "create" || kind == "write" || kind == "sync" || kind == "rename" || kind == "mkdir" || (kind == "open" && strings.Contains(real, "/.tmp"))
+					if fired || seq < at || !writeSide {
+						return nil
+					}
+					fired = true
+					r.Count("fault:upgrade-" + en.Error())
+					return &simfs.Fault{Errno: en}
+				}
+			}
 			call := &Call{Kind: "authenticate", Via: via, Agent: a.idx, User: u, PW: pw}
 			w.addClient([]*Call{call})
 			loginAt := time.Now().Unix()
@@ -299,6 +344,7 @@ func propC12(r *Run) {
 					return
 				}
 			}
+			w.fs.Plan = nil
 			after := w.fs.Snapshot("/srv/whawty")
 			diff := simfs.DiffSnap(before, after)
 			var real []string
@@ -365,7 +411,7 @@ func propC12(r *Run) {
 			} else if right && wasUpgradeable && passes(u, m.PW) {
 				// on an otherwise idle agent the rewrite does happen
 				masterOK := mode != "remote" || w.rtMode == "deliver"
-				if mode != "" && masterOK {
+				if mode != "" && masterOK && !faulty {
 					r.Fail("upgrade/not-performed", "idle agent, mode %q: successful login of %s (via %s) with an upgradeable hash (set %d, default %d) whose password passes the policy, but the record was not rewritten", mode, u, via, rec0.ParamID, cfg.Default)
 				}
 			}
